@@ -408,6 +408,8 @@ class Sim:
     def spawn_shell(self, argv, env_extra=None, stdin=None, stdout=None, stderr=None, pty_mode=False, cwd=None):
         env = self.base_env()
         env.pop("NO_EXIT_ON_CTRL_D")
+        if os.environ.get("LLVM_PROFILE_FILE"):
+            env["LLVM_PROFILE_FILE"] = os.environ["LLVM_PROFILE_FILE"]
         if env_extra:
             env.update(env_extra)
         if pty_mode:
